@@ -231,7 +231,7 @@ def run(prop: str, tier: str) -> int:
     try:
         rng = random.Random(C.seed() * 467 + 8)
         cases = directed()
-        n = 40 if tier == "quick" else 400
+        n = 40 if tier == "quick" else 2500
         for budget in (1, 2, 3, 4, 5):
             for nv, tr in ((False, False), (False, True), (True, False), (True, True)):
                 if nv and budget < 2:
